@@ -157,3 +157,104 @@ def rule_truthy(prog: Program, modules: Optional[Set[str]] = None) -> List[Insta
         if n_params:
             out.append(Instance("R-TRUTHY", f"{mname}#truthy-scan", OK if not bad else INFO, f"{n_params} optional-number parameters, none tested by truth value", mi.path))
     return out
+
+
+# ---------------------------------------------------------------------------------------------
+# R-KIND: positions and extents along an axis are different kinds of number
+# ---------------------------------------------------------------------------------------------
+POS_ATTRS = {"start", "stop", "left", "right", "top", "bottom"}
+NAME_POS = ("center", "centre", "midpoint")
+NAME_LEN = ("span", "shape", "size", "width", "height", "length", "extent_of")
+
+
+def _kind(e: ast.AST) -> Optional[str]:
+    """'P' position, 'PP' sum of two positions, 'L' extent; None unknown."""
+    if isinstance(e, ast.Attribute) and e.attr in POS_ATTRS:
+        return "P"
+    if isinstance(e, ast.BinOp):
+        l, r = _kind(e.left), _kind(e.right)
+        if isinstance(e.op, ast.Sub):
+            if l == "P" and r == "P":
+                return "L"
+            if l == "P" and r in ("L", None):
+                return "P" if r == "L" else None
+            if l == "L" and r == "L":
+                return "L"
+        if isinstance(e.op, ast.Add):
+            if l == "P" and r == "P":
+                return "PP"
+            if {l, r} == {"P", "L"}:
+                return "P"
+            if l == "L" and r == "L":
+                return "L"
+        if isinstance(e.op, (ast.Mult, ast.Div, ast.FloorDiv)):
+            num = lambda x: isinstance(x, ast.Constant) and isinstance(x.value, (int, float))  # noqa: E731
+            if num(e.right) or (isinstance(e.op, ast.Mult) and num(e.left)):
+                k = l if num(e.right) else r
+                c = e.right.value if num(e.right) else e.left.value
+                half = (isinstance(e.op, ast.Mult) and c == 0.5) or (not isinstance(e.op, ast.Mult) and c == 2)
+                if k == "PP":
+                    return "P" if half else None
+                return k
+    return None
+
+
+def rule_kind(prog: Program, modules: Set[str]) -> List[Instance]:
+    out: List[Instance] = []
+    for fi in prog.all_functions(modules):
+        # the name that says what is returned: the function's own, or the enclosing function's for helpers
+        names = [fi.name.lower()]
+        want = "P" if any(k in names[0] for k in NAME_POS) else "L" if any(names[0].startswith(k) or ("_" + k) in names[0] for k in NAME_LEN) else None
+        if want is None:
+            continue
+        for r in walk_own(fi.node):
+            if not (isinstance(r, ast.Return) and r.value is not None):
+                continue
+            for e in ([r.value] if not isinstance(r.value, ast.Tuple) else r.value.elts):
+                k = _kind(e)
+                if k is None:
+                    continue
+                ok = (k == want)
+                out.append(Instance("R-KIND", f"{fi.qual}#returns-{'position' if want == 'P' else 'extent'}:{short(e, 30)}", OK if ok else BAD,
+                                    f"`{short(e, 50)}` is a {'position' if k == 'P' else 'extent' if k == 'L' else 'sum of positions'}" + ("" if ok else
+                                    f", but {fi.name}() returns a {'position (mid-point = half the sum of the two ends)' if want == 'P' else 'extent (difference of the two ends)'}: the value is right only for ranges that start at 0"), fi.where(r)))
+    return out
+
+
+# ---------------------------------------------------------------------------------------------
+# R-ABSEPS: the affine library's predicates use an absolute epsilon of 1e-5
+# ---------------------------------------------------------------------------------------------
+ABS_EPS_PREDICATES = {"is_rectilinear", "is_conformal", "is_orthonormal", "is_degenerate", "is_identity", "almost_equals"}
+WORLD_AFFINE_ATTRS = {"_affine", "affine", "transform"}
+
+
+def rule_abseps(prog: Program, modules: Optional[Set[str]] = None) -> List[Instance]:
+    """`Affine.is_rectilinear` & co compare matrix entries with the absolute constant 1e-5. The entries
+    of a pixel->world affine are in CRS units per pixel: for geographic grids finer than ~1 m (1e-5
+    degrees) every entry is "zero", and is_rectilinear is also true for a 90-degree rotated grid. The
+    repository's own predicates (is_affine_st, maybe_zero with relative scale) are the ones to use on
+    pixel->world affines; the library predicates are fine on pixel->pixel affines (unit scale)."""
+    out: List[Instance] = []
+    n_seen = 0
+    for fi in prog.all_functions(modules):
+        for n in walk_own(fi.node):
+            if not (isinstance(n, ast.Attribute) and n.attr in ABS_EPS_PREDICATES):
+                continue
+            n_seen += 1
+            base = n.value
+            world = False
+            why = "receiver is not a pixel->world affine of a GeoBox"
+            if isinstance(base, ast.Attribute) and base.attr in WORLD_AFFINE_ATTRS:
+                classes = {c.name for c in prog.receiver_classes(base.value, fi)}
+                if classes and "GCPGeoBox" not in classes and classes & {"GeoBox", "GeoBoxBase"}:
+                    world = True
+                elif not classes:
+                    why = "receiver class unknown"
+            cid = f"{fi.qual}#abs-eps:{short(n, 40)}"
+            if world:
+                out.append(Instance("R-ABSEPS", cid, BAD,
+                                    f"`{short(n, 50)}` applies the affine library's absolute-epsilon (1e-5) predicate to a pixel->world affine: sub-1e-5-degree grids and 90-degree rotated grids are misclassified", fi.where(n)))
+            else:
+                out.append(Instance("R-ABSEPS", cid, OK, f"`{short(n, 50)}`: {why}", fi.where(n), nontrivial=False))
+    out.append(Instance("R-ABSEPS", "abs-eps-scan", OK, f"{n_seen} uses of absolute-epsilon affine predicates, none on a pixel->world affine", "", nontrivial=False))
+    return out
